@@ -30,9 +30,8 @@ Open Scope N_scope.
 (** Horner value of a digit string started at [acc] *)
 Lemma dvalue_ul d : forall acc, dvalue acc (ul d) = Unsigned.of_lu (rev d) + acc * 10 ^ Unsigned.usize d.
 Proof.
-  induction d; intro acc; cbn [ul dvalue Unsigned.usize].
-  - cbn. rewrite N.mul_1_r. reflexivity.
-  all: rewrite IHd, N.pow_succ_r';
+  induction d; intro acc; cbn [ul dvalue Unsigned.usize]; [cbn; rewrite N.mul_1_r; reflexivity| ..];
+    rewrite IHd, N.pow_succ_r';
     match goal with |- context [rev (?D ?x)] => change (rev (D x)) with (revapp x (D Nil)) end;
     rewrite Unsigned.of_lu_revapp;
     match goal with |- context [ndval ?c] => let v := eval vm_compute in (ndval c) in change (ndval c) with v end;
@@ -134,10 +133,10 @@ Proof.
   destruct f; cbn [fval_seqb]; rewrite ?Bool.eqb_reflx, ?N.eqb_refl, ?Z.eqb_refl; reflexivity.
 Qed.
 
-Lemma readback_none f : readback_ok f XNone = true.
+Lemma readback_none f : readback_ok f Fmt.XNone = true.
 Proof.
   unfold readback_ok, fmt_field. rewrite line_ok_spaces. cbn [andb].
-  unfold default_rf, expected. destruct (ft f); rewrite ?rstrip_nl_spaces, ?py_int_opt_spaces, ?py_float_opt_spaces; reflexivity.
+  unfold default_rf, expected. destruct (ft f); rewrite ?rstrip_nl_spaces, ?py_int_opt_spaces, ?py_float_opt_spaces; apply rvalue_eqb_refl.
 Qed.
 
 (** * names *)
@@ -161,7 +160,7 @@ Proof.
   intros NE A. unfold py_int_opt, cstrip. rewrite strip_by_nochar by (apply all_digits_nocspace; exact A).
   destruct ds as [|c r]; [congruence|]. pose proof A as A'. cbn in A'. apply andb_prop in A' as [D _].
   destruct (digit_facts c D) as (M & P & _). unfold sign. rewrite M, P. cbn [fst snd]. unfold int_body.
-  rewrite <- (app_nil_r (c :: r)) at 1. rewrite digitpart_digits by (try assumption; try discriminate; reflexivity). reflexivity.
+  rewrite <- (List.app_nil_r (c :: r)) at 1. rewrite digitpart_digits by (try assumption; try discriminate; reflexivity). reflexivity.
 Qed.
 Lemma readback_int f z : ft f = Td -> (0 <= z)%Z -> (length (zdigits z) <= width f)%nat -> readback_ok f (XInt z) = true.
 Proof.
@@ -173,4 +172,136 @@ Proof.
   rewrite (line_ok_pad _ _ Lo). cbn [andb].
   unfold default_rf, expected. rewrite T. rewrite py_int_opt_pad, py_int_opt_digits; [|apply n_to_str_nonnil|apply n_to_str_digits].
   rewrite (zdigits_value _ Z0). apply rvalue_eqb_refl.
+Qed.
+
+(** * reals in [%w.pf] *)
+Lemma rhe_nonneg n d : (0 <= n)%Z -> (0 < d)%Z -> (0 <= rhe n d)%Z.
+Proof.
+  intros Hn Hd. unfold rhe. pose proof (Z.div_pos n d Hn Hd).
+  destruct (Z.compare (2 * (n mod d)) d); [destruct (Z.even (n / d))| |]; lia.
+Qed.
+Lemma num_den_pos m e : (0 <= m)%Z -> (0 <= fst (num_den m e) /\ 0 < snd (num_den m e))%Z.
+Proof.
+  intro H. unfold num_den. destruct (0 <=? e)%Z eqn:E; cbn [fst snd].
+  - split; [|lia]. apply Z.leb_le in E. apply Z.mul_nonneg_nonneg; [exact H|]. apply Z.pow_nonneg. lia.
+  - split; [exact H|]. apply Z.pow_pos_nonneg; lia.
+Qed.
+Lemma dvalue_zeros n : forall acc, dvalue acc (repeat "0"%char n) = (acc * 10 ^ N.of_nat n)%N.
+Proof.
+  induction n as [|n IH]; intro acc; [cbn; rewrite N.mul_1_r; reflexivity|].
+  cbn [repeat dvalue]. rewrite IH, Nat2N.inj_succ, N.pow_succ_r'. change (ndval "0") with 0%N. ring.
+Qed.
+Lemma all_digits_zeros n : all_digits (repeat "0"%char n) = true.
+Proof. induction n; [reflexivity|]. cbn. exact IHn. Qed.
+
+Lemma fmt_f_body_form p m e : (1 <= p)%Z -> (0 <= m)%Z ->
+  exists ipd fpd, fmt_f_body p m e = mant ipd fpd /\ all_digits ipd = true /\ all_digits fpd = true /\ ipd <> [] /\
+    length fpd = Z.to_nat p /\
+    dvalue 0 (ipd ++ fpd) = Z.to_N (rhe (fst (num_den m e) * pow10 p) (snd (num_den m e))).
+Proof.
+  intros Hp Hm. destruct (num_den_pos m e Hm) as [Hn Hd]. unfold fmt_f_body.
+  destruct (num_den m e) as [num den]. cbn [fst snd] in *.
+  set (N := rhe (num * pow10 p) den).
+  assert (P10 : (0 < pow10 p)%Z) by (unfold pow10; apply Z.pow_pos_nonneg; lia).
+  assert (HN : (0 <= N)%Z) by (apply rhe_nonneg; [apply Z.mul_nonneg_nonneg; lia|exact Hd]).
+  assert (Hfp : (0 <= N mod pow10 p < pow10 p)%Z) by (apply Z.mod_pos_bound; exact P10).
+  assert (Hip : (0 <= N / pow10 p)%Z) by (apply Z.div_pos; lia).
+  assert (Lfp : (length (zdigits (N mod pow10 p)) <= Z.to_nat p)%nat).
+  { unfold zdigits. assert (X : (N.of_nat (length (n_to_str (Z.to_N (N mod pow10 p)))) <= Z.to_N p)%N); [|lia].
+    apply n_to_str_length; [|lia].
+    replace (10 ^ Z.to_N p)%N with (Z.to_N (pow10 p)).
+    - apply Z2N.inj_lt; lia.
+    - unfold pow10. rewrite Z2N.inj_pow by lia. reflexivity. }
+  replace (0 <? p)%Z with true by (symmetry; apply Z.ltb_lt; lia).
+  exists (zdigits (N / pow10 p)), (zeros (p - Z.of_nat (length (zdigits (N mod pow10 p)))) ++ zdigits (N mod pow10 p)).
+  split; [reflexivity|]. unfold zeros.
+  split; [apply n_to_str_digits|].
+  split; [unfold all_digits; rewrite forallb_app; fold (all_digits (repeat "0"%char (Z.to_nat (p - Z.of_nat (length (zdigits (N mod pow10 p)))))));
+          rewrite all_digits_zeros; apply n_to_str_digits|].
+  split; [apply n_to_str_nonnil|].
+  split; [rewrite app_length, repeat_length; lia|].
+  rewrite !dvalue_app, dvalue_zeros, dvalue_shift.
+  set (len := length (zdigits (N mod pow10 p))) in *.
+  set (k := Z.to_nat (p - Z.of_nat len)).
+  assert (VZ : forall z, dvalue 0 (zdigits z) = Z.to_N z) by (intro z; unfold zdigits; apply n_to_str_value).
+  rewrite !VZ.
+  assert (KL : (N.of_nat k + N.of_nat len = Z.to_N p)%N) by (unfold k; lia).
+  rewrite <- N.mul_assoc, <- N.pow_add_r, KL.
+  replace (10 ^ Z.to_N p)%N with (Z.to_N (pow10 p)) by (unfold pow10; rewrite Z2N.inj_pow by lia; reflexivity).
+  rewrite <- Z2N.inj_mul, <- Z2N.inj_add by lia. f_equal.
+  rewrite Z.mul_comm. symmetry. apply Z.div_mod. lia.
+Qed.
+
+Definition signed_text (ng : bool) (body : str) : str := if ng then "-"%char :: body else body.
+Lemma fmt_f_reads p m e ng : (1 <= p)%Z -> (0 <= m)%Z ->
+  py_float_opt (signed_text ng (fmt_f_body p m e)) =
+  Some (Fin ng (Z.to_N (rhe (fst (num_den m e) * pow10 p) (snd (num_den m e)))) (- p)).
+Proof.
+  intros Hp Hm. destruct (fmt_f_body_form p m e Hp Hm) as [ipd [fpd [E [Ai [Af [NE [Lf V]]]]]]].
+  rewrite E. replace (signed_text ng (mant ipd fpd)) with (sgstr (if ng then Some true else None) ++ mant ipd fpd) by (destruct ng; reflexivity).
+  rewrite float_plain by (repeat split; try assumption; left; exact NE).
+  rewrite V, Lf. f_equal. f_equal; [destruct ng; reflexivity|]. rewrite Z2Nat.id by lia. lia.
+Qed.
+Lemma fmt_f_line_ok p m e ng : (1 <= p)%Z -> (0 <= m)%Z -> line_ok (signed_text ng (fmt_f_body p m e)) = true.
+Proof.
+  intros Hp Hm. destruct (fmt_f_body_form p m e Hp Hm) as [ipd [fpd [E [Ai [Af _]]]]]. rewrite E.
+  assert (B : line_ok (mant ipd fpd) = true).
+  { unfold mant. rewrite line_ok_app. cbn [line_ok forallb]. fold (line_ok fpd).
+    rewrite (line_ok_digits _ Ai), (line_ok_digits _ Af). reflexivity. }
+  destruct ng; cbn [signed_text line_ok forallb]; [fold (line_ok (mant ipd fpd)); rewrite B; reflexivity|exact B].
+Qed.
+
+Lemma readback_real f ng m e : ft f = Tf -> (1 <= prec f)%Z -> (0 <= m)%Z ->
+  (length (signed_text ng (fmt_f_body (prec f) m e)) <= width f)%nat -> readback_ok f (XReal ng m e) = true.
+Proof.
+  intros T Hp Hm Le. unfold readback_ok, fmt_field, fmt_raw. rewrite T. cbn [bind]. unfold fmt_f.
+  fold (signed_text ng (fmt_f_body (prec f) m e)).
+  assert (E : length (pad (fw f) (signed_text ng (fmt_f_body (prec f) m e))) = width f) by (apply pad_exact; exact Le).
+  rewrite E, Nat.leb_refl. rewrite (line_ok_pad _ _ (fmt_f_line_ok _ _ _ _ Hp Hm)). cbn [andb].
+  unfold default_rf, expected. rewrite T. rewrite py_float_opt_pad, (fmt_f_reads _ _ _ _ Hp Hm).
+  unfold dec_f. destruct (num_den m e) as [num den]. cbn [fst snd]. apply rvalue_eqb_refl.
+Qed.
+
+(** * the "fits" predicate of a field and its soundness *)
+Definition fits_field (f : fspec) (v : value) : bool :=
+  match v, ft f with
+  | Fmt.XNone, _ => true
+  | XStr s, Ts => line_ok s && (length s <=? width f)%nat
+  | XInt z, Td => (0 <=? z)%Z && (length (zdigits z) <=? width f)%nat
+  | XReal ng m e, Tf => (1 <=? prec f)%Z && (0 <=? m)%Z && (length (signed_text ng (fmt_f_body (prec f) m e)) <=? width f)%nat
+  | _, _ => false
+  end.
+Theorem fits_reads_back f v : fits_field f v = true -> readback_ok f v = true.
+Proof.
+  unfold fits_field. destruct v as [s|z|ng m e|]; [| | |intros _; apply readback_none]; destruct (ft f) eqn:T; try discriminate; intro H.
+  - apply andb_prop in H as [A B]. apply Nat.leb_le in B. apply readback_str; assumption.
+  - apply andb_prop in H as [A B]. apply Nat.leb_le in B. apply Z.leb_le in A. apply readback_int; assumption.
+  - apply andb_prop in H as [A C]. apply andb_prop in A as [A B]. apply Nat.leb_le in C. apply Z.leb_le in A. apply Z.leb_le in B.
+    apply readback_real; assumption.
+Qed.
+
+(** purely arithmetic sufficient condition for a real: the rounded value has at most
+    [q] integer digits and the field has room for them, the point, the decimals and a sign *)
+Lemma fmt_f_body_length p m e q : (1 <= p)%Z -> (0 <= m)%Z -> (1 <= q)%Z ->
+  (rhe (fst (num_den m e) * pow10 p) (snd (num_den m e)) < pow10 (p + q))%Z ->
+  (length (fmt_f_body p m e) <= Z.to_nat (q + 1 + p))%nat.
+Proof.
+  intros Hp Hm Hq B. destruct (num_den_pos m e Hm) as [Hn Hd]. unfold fmt_f_body.
+  destruct (num_den m e) as [num den]. cbn [fst snd] in *.
+  set (N := rhe (num * pow10 p) den) in *.
+  replace (0 <? p)%Z with true by (symmetry; apply Z.ltb_lt; lia).
+  assert (P10 : (0 < pow10 p)%Z) by (unfold pow10; apply Z.pow_pos_nonneg; lia).
+  assert (HN : (0 <= N)%Z) by (apply rhe_nonneg; [apply Z.mul_nonneg_nonneg; lia|exact Hd]).
+  assert (Lip : (length (zdigits (N / pow10 p)) <= Z.to_nat q)%nat).
+  { unfold zdigits. assert (X : (N.of_nat (length (n_to_str (Z.to_N (N / pow10 p)))) <= Z.to_N q)%N); [|lia].
+    apply n_to_str_length; [|lia].
+    replace (10 ^ Z.to_N q)%N with (Z.to_N (pow10 q)) by (unfold pow10; rewrite Z2N.inj_pow by lia; reflexivity).
+    apply Z2N.inj_lt; [apply Z.div_pos; lia|unfold pow10; apply Z.pow_nonneg; lia|].
+    apply Z.div_lt_upper_bound; [exact P10|]. unfold pow10 in *. rewrite <- Z.pow_add_r by lia. exact B. }
+  assert (Lfp : (length (zdigits (N mod pow10 p)) <= Z.to_nat p)%nat).
+  { unfold zdigits. assert (X : (N.of_nat (length (n_to_str (Z.to_N (N mod pow10 p)))) <= Z.to_N p)%N); [|lia].
+    apply n_to_str_length; [|lia].
+    replace (10 ^ Z.to_N p)%N with (Z.to_N (pow10 p)) by (unfold pow10; rewrite Z2N.inj_pow by lia; reflexivity).
+    apply Z2N.inj_lt; [apply Z.mod_pos_bound; exact P10|lia|apply Z.mod_pos_bound; exact P10]. }
+  rewrite app_length. cbn [length]. rewrite app_length. unfold zeros. rewrite repeat_length. lia.
 Qed.
